@@ -6,8 +6,9 @@ ROOT = os.path.dirname(os.path.dirname(os.path.abspath(__file__)))
 
 
 def post(ctx, rows, info, broken):
-    """Replay of finding trigger-writes-during-fire on the real dispatcher: harness/cmd/c32nested runs in its own
-    process (the same race can end in a Go fatal error) and searches up to N flushes for a second delivery."""
+    """Regression replay of the FIXED finding trigger-writes-during-fire on the real dispatcher: harness/cmd/c32nested runs
+    in its own process (the race could also end in a Go fatal error) and searches up to N synchronous flushes, with a
+    trigger that writes from Fire, for a second delivery.  Any hit is an unlisted oracle failure -> VIOLATION."""
     if info.get("replay"):
         return
     witness = os.path.join(ROOT, "corpus", "C32", "nested", "nested_write.json")
@@ -39,7 +40,7 @@ def post(ctx, rows, info, broken):
                          "class": "trigger-writes-during-fire", "detail": detail, "in_domain": False,
                          "tags": ["nested-write-replay"], "nontrivial": False, "key": "c32nested"})
             return
-    ctx.notes.append("c32nested: no second delivery observed in 3 x 400 flushes (the race window was not hit)")
+    ctx.notes.append("c32nested: 3 x 400 synchronous flushes with a writing trigger, every record delivered exactly once")
 
 
 SPEC = {
@@ -48,7 +49,7 @@ SPEC = {
     "module": "MS.Properties.C32",
     "theorems": ["C32_match_spec", "C32_exactly_once", "C32_multiplicity", "C32_no_foreign", "C32_schedules",
                  "C32_never_too_much", "C32_progress", "C32_terminates", "C32_reaches_quiescence", "C32_match_unanchored",
-                 "C32_sync_refuted"],
+                 "C32_sync_invariant", "C32_sync_never_too_much", "C32_sync_exactly_once"],
     "corr_require": "Require Import MS.Corr.C32.",
     "agrees": "C32.agrees",
     "in_domain": "C32.in_domain",
@@ -74,10 +75,9 @@ SPEC = {
     ],
     "assumptions": [
         "flushed transactions = the serialized TGs handed to the ReplicationSender after the WAL sync (executor/wal.go:318-320)",
-        "synchronous mode (no SyncWAL goroutine) with CONCURRENT flushes is outside the guarded theorems: tpd.m is then an unsynchronised map "
-        "written by several goroutines. This includes a single writer plus a trigger that writes from Fire (contrib/ondiskagg): refuted by "
-        "C32_sync_refuted and replayed on the real dispatcher by harness/cmd/c32nested (finding trigger-writes-during-fire); the differential "
-        "cases use concurrent writers only in background mode and non-writing triggers",
+        "synchronous mode (no SyncWAL goroutine): since /repo fix 39160a5 RequestFlush serialises the flushes it runs in its callers' "
+        "goroutines, so concurrent callers and triggers that write from Fire (contrib/ondiskagg) take turns; theorems C32_sync_* cover that "
+        "mode on an LTS with atomic flushes; harness/cmd/c32nested replays the former finding on the real dispatcher in every run",
         "'pattern matches the bucket' is Matcher.Match as implemented: unanchored, unescaped regexp search (observation, see notes/C32.md)",
         "delivery is asserted at quiescence; WALFileType.Shutdown does not wait for the fire goroutines of the last messages (observation)",
     ],
